@@ -1,6 +1,7 @@
 import Lean.Data.Json
 import Glom.Driver.C10
 import Glom.Spec.C09
+import Glom.Model.C09Env
 /-
   C09 driver: one JSON case in, one JSON verdict out (codecs: Glom/Driver/C10.lean).
 
@@ -12,14 +13,7 @@ import Glom.Spec.C09
 namespace Glom.C09.Driver
 open Lean Glom Glom.MV Glom.C10 Glom.C10.Driver Glom.C09
 
-def facts9 : Facts9 :=
-  { matchOrder := Generated.glomMatchOrder
-    dispatchOrder := Generated.glomDispatchOrder
-    precedenceRules := Generated.precedenceRules
-    required := Generated.handleDictRequired
-    defaults := Generated.handleDictDefaults
-    mutations := Generated.matchMutations
-    fresh := Generated.matchFresh }
+def facts9 : Facts9 := genFacts9
 
 def obs9Agree (a b : Obs9) : Bool :=
   obsAgree a.main b.main && obsAgree a.verify b.verify && a.matched == b.matched &&
